@@ -294,6 +294,20 @@ def long_case(case, res):
     tol = (256 * eps * (1 + math.log2(N)) + 8 * math.pi * N * float(np.finfo(np.float64).eps)) * float(np.max(np.abs(xd)))
     outs = {"axis=1 (keyword)": lambda: f(x, axis=1), "1 (positional)": lambda: f(x, 1), "axis=-1": lambda: f(x, axis=-1),
             "transposed, default axis": lambda: f(np.ascontiguousarray(x.T)).T, "transposed, 0 (positional)": lambda: f(np.ascontiguousarray(x.T), 0).T}
+    # the conversion is linear: the same data scaled by 1e-9 and 1e-12 (every sample below 1e-8) gives the scaled result
+    if dt.kind == "f" and N <= 5000:
+        base = np.asarray(f(x, axis=1))
+        for sc in (1e-9, 2.0 ** -40, 1e-30 if dt == np.float64 else 1e-20):
+            xs = (x.astype(np.float64) * sc).astype(dt)
+            ys = np.asarray(f(xs, axis=1))
+            res.transitions += 1
+            ref_s = np.asarray(ref) * sc
+            e = float(np.max(np.abs(ys - ref_s))) / sc
+            if not res.ratio("scaled input err / budget", e, tol * 4 + 4 * eps):
+                res.violation("real_to_complex|tiny magnitudes", f"N={N} {dt}: input scaled by {sc:g} gives a result that is not the scaled "
+                              f"result (relative error {e:.3g}; all-zero output: {not ys.any()})", case, {"scale": sc})
+            else:
+                res.hits["tiny magnitudes"] += 1
     for nm, fn in outs.items():
         res.transitions += 1
         res.traces += 1
@@ -330,7 +344,7 @@ def check_case(case):          # noqa: F811 - dispatch on the case kind
 def main(argv=None):
     return report.run_check(
         PID, gen_cases=gen_cases, check_case=check_case, describe=describe,
-        required_hits=["N = 0", "N = 1", "non-contiguous input", "zero-length other axis", "concurrent same-shape calls explored", "negative axis", "middle axis of rank 3", "complex refused", "empty complex input refused", "tone mapped", "long axis"],
+        required_hits=["N = 0", "N = 1", "non-contiguous input", "zero-length other axis", "concurrent same-shape calls explored", "negative axis", "middle axis of rank 3", "complex refused", "empty complex input refused", "tone mapped", "long axis", "tiny magnitudes"],
         assumptions=["budget 8 eps max(N,4) max|x| with eps = single precision for float16/float32 input (scipy.fft computes half-precision input in single precision) and double otherwise"],
         argv=argv)
 
